@@ -8,6 +8,10 @@
 //   cip  <id> <dom> <dim> cons K .. [cgs K ..]
 //   drop <id> <dom> <dim> cons K .. [cgs K ..] vars <-1 | k v..> cx <0|1|2>
 //   dom: C NNC BDS OCT BOX GRID PC      (ov: 0 wraps, 1 undefined, 2 impossible)
+//   every line may end with `st <k>' (C / NNC only): the lazy representation state the polyhedron is put in before the
+//   operation: 0 constraints only, 1 generators computed too, 2 both minimized, 3 rebuilt from its generators only,
+//   4 rebuilt from its minimized generators, 5 both up to date + a pending (redundant) constraint, 6 both + a pending generator.
+//   The ARGUMENT is described from a COPY, so that printing does not disturb the state.
 // output:
 //   res <id> arg <descr> out <descr>         descr ::= disj N { cons K .. cgs K .. }
 //   ans <id> arg <descr> val <0|1>
@@ -44,6 +48,33 @@ template <> struct Build<PC> { static PC make(const Input& in) {
   PC x(in.dim, EMPTY); C_Polyhedron p(in.dim); p.add_constraints(in.cs); x.add_disjunct(p);
   if (in.has_alt) { C_Polyhedron q(in.dim); q.add_constraints(in.alt); x.add_disjunct(q); }
   return x; } };
+
+// ---- lazy representation states (polyhedra only) ----
+template <typename PH> void prep_poly(PH& x, const Input& in, long st) {
+  switch (st) {
+  case 1: (void) x.generators(); break;
+  case 2: (void) x.minimized_constraints(); (void) x.minimized_generators(); break;
+  case 3: case 4:
+    if (x.is_empty()) { PH y(in.dim, EMPTY); x.m_swap(y); }
+    else { Generator_System gs(st == 3 ? x.generators() : x.minimized_generators()); PH y(gs); x.m_swap(y); }
+    break;
+  case 5:
+    (void) x.generators(); (void) x.constraints();
+    if (in.cs.begin() != in.cs.end()) x.add_constraint(*in.cs.begin());
+    break;
+  case 6: {
+    (void) x.constraints(); Generator_System gs(x.generators());
+    for (Generator_System::const_iterator i = gs.begin(); i != gs.end(); ++i)
+      if (i->is_point()) { x.add_generator(*i); break; }
+    break; }
+  default: break;
+  }
+}
+template <typename D> void prep(D&, const Input&, long) {}
+void prep(C_Polyhedron& x, const Input& in, long st) { prep_poly(x, in, st); }
+void prep(NNC_Polyhedron& x, const Input& in, long st) { prep_poly(x, in, st); }
+static long read_state(Toks& tk) { if (tk.more() && tk.t[tk.i] == "st") { tk.next(); return tk.nextl(); } return 0; }
+template <typename D> std::string descr_of_copy(const D& x, unsigned dim) { D y(x); std::ostringstream a; descr1(a, y, dim); return a.str(); }
 
 static void expect(Toks& tk, const char* w) { std::string s = tk.next(); if (s != w) throw std::runtime_error(std::string("case: expected ") + w + " got " + s); }
 
@@ -93,9 +124,11 @@ template <typename D> void do_wrap(const std::string& id, Toks& tk, unsigned dim
   if (hg) { expect(tk, "cons"); g = read_guard(tk, dim); }
   expect(tk, "thr"); unsigned thr = (unsigned) tk.nextl();
   expect(tk, "ind"); bool ind = tk.nextl() != 0;
+  long st = read_state(tk);
   D x = Build<D>::make(in);
-  std::ostringstream a; descr1(a, x, dim);
-  aux_info(id, x, vs);
+  prep(x, in, st);
+  std::ostringstream a; a << descr_of_copy(x, dim);
+  { D y(x); aux_info(id, y, vs); }
   Bounded_Integer_Type_Width bw = w == 8 ? BITS_8 : w == 16 ? BITS_16 : w == 32 ? BITS_32 : w == 64 ? BITS_64 : BITS_128;
   Bounded_Integer_Type_Representation br = sg ? SIGNED_2_COMPLEMENT : UNSIGNED;
   Bounded_Integer_Type_Overflow bo = ov == 0 ? OVERFLOW_WRAPS : ov == 1 ? OVERFLOW_UNDEFINED : OVERFLOW_IMPOSSIBLE;
@@ -105,8 +138,10 @@ template <typename D> void do_wrap(const std::string& id, Toks& tk, unsigned dim
 
 template <typename D> void do_cip(const std::string& id, Toks& tk, unsigned dim) {
   Input in = read_input(tk, dim);
+  long st = read_state(tk);
   D x = Build<D>::make(in);
-  std::ostringstream a; descr1(a, x, dim);
+  prep(x, in, st);
+  std::ostringstream a; a << descr_of_copy(x, dim);
   bool r = x.contains_integer_point();
   std::cout << "ans " << id << " arg " << a.str() << " val " << (r ? 1 : 0) << "\n";
 }
@@ -116,8 +151,10 @@ template <typename D> void do_drop(const std::string& id, Toks& tk, unsigned dim
   expect(tk, "vars"); long k = tk.nextl(); Variables_Set vs; for (long i = 0; i < k; ++i) vs.insert(Variable(tk.nextl()));
   expect(tk, "cx"); long cx = tk.nextl();
   Complexity_Class cc = cx == 0 ? POLYNOMIAL_COMPLEXITY : cx == 1 ? SIMPLEX_COMPLEXITY : ANY_COMPLEXITY;
+  long st = read_state(tk);
   D x = Build<D>::make(in);
-  std::ostringstream a; descr1(a, x, dim);
+  prep(x, in, st);
+  std::ostringstream a; a << descr_of_copy(x, dim);
   if (k < 0) x.drop_some_non_integer_points(cc); else x.drop_some_non_integer_points(vs, cc);
   std::cout << "res " << id << " arg " << a.str() << " out "; descr1(std::cout, x, dim); std::cout << "\n";
 }
